@@ -268,6 +268,11 @@ Proof.
     inversion H; subst w' r.
     split; [apply linv_upd; [apply linv_upd; [exact I|]|]; apply linv_get; exact I|].
     rewrite !labs_upd, !sget_labs. reflexivity.
+  - (* PAppendN *)
+    destruct (nl_append (ctor_val args) (lget i w)) as [l1 s] eqn:E. inversion H; subst w' r.
+    destruct (nl_append_refines _ _ _ _ (linv_get i w I) E) as (I1 & Hv & Hr & _).
+    split; [apply linv_upd; assumption|].
+    rewrite labs_upd, sget_labs. cbn [lobs_res]. rewrite lget_upd_same by assumption. rewrite Hv, Hr. reflexivity.
 Qed.
 
 Lemma prun_refines ops : forall w, linv w ->
@@ -310,3 +315,32 @@ Qed.
 
 Lemma append_designates (l : sseq) v : nth_error (l ++ [v]) (length l) = Some v.
 Proof. rewrite nth_error_app2 by lia. rewrite Nat.sub_diag. reflexivity. Qed.
+
+(* ------------------------------------------------------------------------------------- *)
+(* PoolList::append(a, b, ...): the reference element ctor_val args names arity and          *)
+(* arguments injectively on the domain of PAppendN, so "the appended element is T(a, b, ...)"*)
+(* cannot be met by an element built from other arguments, a different order or arity        *)
+(* ------------------------------------------------------------------------------------- *)
+Definition digit_ok (a : Z) : bool := ((0 <=? a) && (a <? 8))%Z.
+Definition digits (args : list Z) : Z := fold_right (fun a acc => a + 8 * acc)%Z 0%Z args.
+
+Lemma digits_inj (a : list Z) : forall b, length a = length b ->
+    forallb digit_ok a = true -> forallb digit_ok b = true -> digits a = digits b -> a = b.
+Proof.
+  induction a as [|x a IH]; intros [|y b] L Ha Hb E; try discriminate L; [reflexivity|].
+  cbn [forallb] in Ha, Hb. apply andb_true_iff in Ha, Hb. destruct Ha as [Hx Ha], Hb as [Hy Hb].
+  injection L as L. unfold digits in E. cbn [fold_right] in E. fold (digits a) in E. fold (digits b) in E.
+  unfold digit_ok in Hx, Hy. apply andb_true_iff in Hx, Hy.
+  assert (X : x = y /\ digits a = digits b) by lia.
+  destruct X as [-> X]. f_equal. apply IH; assumption.
+Qed.
+
+Theorem ctor_val_injective a b :
+    ctor_args_ok a = true -> ctor_args_ok b = true -> ctor_val a = ctor_val b -> a = b.
+Proof.
+  unfold ctor_args_ok, ctor_val. intros Ha Hb E. apply andb_true_iff in Ha, Hb.
+  destruct Ha as [La Ha], Hb as [Lb Hb]. apply Nat.leb_le in La, Lb.
+  fold (digits a) in E. fold (digits b) in E.
+  assert (X : length a = length b /\ digits a = digits b) by lia.
+  destruct X as [L X]. apply digits_inj; assumption.
+Qed.
